@@ -2,6 +2,7 @@ package isobmff
 
 import (
 	"bufio"
+	"io"
 
 	"github.com/evanoberholster/imagemeta/meta"
 	"github.com/pkg/errors"
@@ -56,13 +57,23 @@ func (b *box) Discard(n int) (int, error) {
 // Read the bytes from underlying reader. Is limited by the
 // constrains of the box
 func (b *box) Read(p []byte) (n int, err error) {
-	if b.remain >= len(p) {
-		//fmt.Println(b.remain)
-		n, err = b.reader.br.Read(p)
-		b.adjust(n)
-		return n, err
+	// readable bytes: what is left of this box and of every enclosing box
+	limit := b.remain
+	for o := b.outer; o != nil; o = o.outer {
+		if o.remain < limit {
+			limit = o.remain
+		}
 	}
-	return 0, ErrRemainLengthInsufficient
+	if limit <= 0 {
+		return 0, io.EOF
+	}
+	if len(p) > limit {
+		p = p[:limit]
+	}
+	n, err = b.reader.br.Read(p)
+	b.reader.offset += n
+	b.adjust(n)
+	return n, err
 }
 
 func (b *box) adjust(n int) {
